@@ -39,6 +39,10 @@ fn alphabet() -> Vec<Vec<u8>> {
     a.push(vec![0xC5]);
     a.push(vec![0x7F]);
     a.push(vec![0x01]);
+    // white space that is not a shell word delimiter
+    a.push(b"\r".to_vec());
+    a.push("\u{a0}".as_bytes().to_vec());
+    a.push("\u{3000}".as_bytes().to_vec());
     a
 }
 
